@@ -270,11 +270,18 @@ func (w *e1World) step(c *sim.Ctx, prop string, i int, o fsx.Op, env *fsx.Env, u
 		}
 
 		out.classes = []string{hc}
+
+		if o.K == "FChdir" && hc == "hdir" {
+			// has the directory been renamed or removed since the handle was opened?
+			if rs, err := w.k.call(kReq{Cmd: "hclass", Op: o}); err == nil && len(rs.Classes) == 1 {
+				out.classes = rs.Classes
+			}
+		}
 	}
 
 	op := o
 	// temporary names come from the scheduler's seam (client 0, call i): the same run chooses the same names.
-	_, v, msg := sim.Call1As(0, i, 9973, func() string {
+	raw, v, msg := sim.Call1As(0, i, 9973, func() string {
 		out.a = env.Exec(op)
 
 		return out.a.String()
@@ -287,9 +294,16 @@ func (w *e1World) step(c *sim.Ctx, prop string, i int, o fsx.Op, env *fsx.Env, u
 	}
 
 	if v != sim.VOK {
-		out.cut = true
+		// the call did not return (deadlock, endless loop, panic): that is property C07, whichever check meets it.
 		out.a = fsx.Result{Err: v.String()}
-		c.Count("inconclusive_"+v.String(), 1)
+		c.Count("call_did_not_return_"+v.String(), 1)
+
+		sig := w.kind + " " + v.String() + " " + o.String()
+		if v == sim.VPanic {
+			sig = w.kind + " panic " + o.K + ": " + normPanic(strings.TrimPrefix(raw, "panic:"))
+		}
+
+		out.violation = &sim.Violation{Prop: "C07", Class: v.String(), Sig: sig, Msg: fmt.Sprintf("call %d %s on %s: %s %s", i, o, w.kind, v, msg)}
 
 		return out
 	}
